@@ -568,6 +568,11 @@ func extractXMLDataField(parsedFieldBytes *TagValue, buffer []byte, dataLen int)
 		return
 	}
 	endIndex += dataLen + 1
+	if endIndex < 0 || endIndex >= len(buffer) {
+		err = parseError{OrigError: fmt.Sprintf("extractXMLDataField: XMLDataLen %d exceeds the message", dataLen)}
+		remBytes = buffer
+		return
+	}
 
 	err = parsedFieldBytes.parse(buffer[:endIndex+1])
 	return buffer[(endIndex + 1):], err
